@@ -5,10 +5,25 @@
    Grid.tla cannot explain what the call did ({} = explained).
    "HARNESS-PRECONDITION" is not a verdict about fcppt: the harness logged
    something that does not cover the input space it claims to cover. *)
-EXTENDS Grid, RecordLoop
+EXTENDS Grid, GridObj, RecordLoop
 
 Pfx(c, n) == SubSeq(c, 1, n)
 R(cond, why) == IF cond THEN {} ELSE {why}
+(* Scope (binding): only behaviour named by the statement of C08 may become a VIOLATION:
+     "the linear offset of a position is a bijection between the in-range positions and [0, content),
+      iterating the position range of the whole grid visits every in-range position exactly once in
+      storage order, and a sub-range given by min and sup visits exactly the positions p with
+      min <= p < sup component-wise (none if any component of min is not below sup) with size() equal
+      to the number visited. at_optional yields an element exactly for in-range positions, and resize,
+      map, apply, fill and the clamp helpers produce, cell by cell, the value their documentation
+      specifies."
+   Judged but OBSERVED ONLY (prefix "obs:", never rejects a record): the constructors and the other
+   operations of the grid object machine (copy / move / swap / writes through get_unsafe and through
+   storage iterators / destruction), operator<<, in_range / in_range_dim taken by themselves,
+   interpolate, and the combination of the spiral range with at_optional.  Of the grid object machine
+   the transitions write_at (at_optional), resize_assign (resize) and fill are inside the statement. *)
+Obs(S) == {"obs:" \o w : w \in S}
+ObjInScope == {"write_at", "resize_assign", "fill"}
 Bool01(b) == IF b THEN 1 ELSE 0
 
 SrcGrid(size, gen) == GridOf(size, LAMBDA p : Lin(gen, p))
@@ -34,8 +49,53 @@ Walk(r, S) ==
   \cup R(r.capped \/ r.vis = RowMajor(S), "visited-sequence")
   \cup R(r.size = Cardinality(S), "size")
 
+(* ---- extension: the grid object machine (GridObj.tla) ---------------------------
+   every record is one transition: the observed slots before the operation (pre), the
+   operation with its arguments, the observed slots after it (post), the returned flag and,
+   for "output", the text written by operator<< *)
+ObsGrid(o) ==
+  [size |-> o.gsize,
+   cell |-> [p \in Positions(o.gsize) |-> (CHOOSE c \in {o.cells[k] : k \in 1..Len(o.cells)} : Pfx(c, 2) = p)[3]]]
+ObsCovers(o) == {Pfx(o.cells[k], 2) : k \in 1..Len(o.cells)} = Positions(o.gsize) /\ Len(o.cells) = Content(o.gsize)
+SlotOf(o) == CASE o.k = "dead" -> Dead [] o.k = "moved" -> Moved [] o.k = "live" -> Live(ObsGrid(o))
+
+ObjReasons(r) ==
+  LET ns == Len(r.pre)
+      preOk == \A k \in 1..ns : r.pre[k].k = "live" => ObsCovers(r.pre[k])
+      st == [k \in 1..ns |-> SlotOf(r.pre[k])]
+      a == [op |-> r.op, d |-> r.d, s |-> r.s, size |-> r.size, v |-> r.v, gen |-> r.gen, p |-> r.p, k |-> r.k]
+  IN
+  IF ~preOk \/ Len(r.post) # ns \/ r.d \notin 1..ns \/ (r.s # 0 /\ r.s \notin 1..ns) THEN {"HARNESS-PRECONDITION"}
+  ELSE IF \E k \in 1..ns : r.pre[k].k = "live" /\ ~(r.pre[k].flat = Storage(ObsGrid(r.pre[k])) /\ r.pre[k].content = Content(r.pre[k].gsize))
+       \* an earlier (already judged) operation left an object whose storage and size disagree: what any
+       \* operation does to such an object is not a statement about that operation
+       THEN Obs({"object-inconsistent-before-the-operation"})
+  ELSE IF ~Pre(st, a) THEN {"HARNESS-PRECONDITION"}
+  ELSE
+    LET e == Eff(st, a)
+        Scope(S) == IF r.op \in ObjInScope THEN S ELSE Obs(S)
+    IN
+    Scope(UNION {IF e.st[k].k # "live"
+           THEN R(r.post[k].k = e.st[k].k, "slot-kind")
+           ELSE IF r.post[k].k # "live" THEN {"slot-kind"}
+                ELSE GridObs(r.post[k] @@ [N |-> 2], e.st[k].g) : k \in 1..ns}
+          \cup R(r.ret = e.ret, "returned-flag"))
+    \cup Obs(R(r.op = "output" => NoSpaces(r.text) = OutputText2(st[r.d].g), "output-text"))
+
 GridReasons(r) ==
-  CASE r.f = "pos_range" ->
+  CASE r.f = "obj" -> ObjReasons(r)
+    [] r.f = "obj_stop" -> Obs({"script-not-defined-on-the-real-object"})
+    [] r.f = "interp" ->
+         R(InterpPre(r.gsize, r.q), "HARNESS-PRECONDITION")
+         \cup Obs(R(r.exact /\ r.r16 = (IF r.N = 1 THEN 4 ELSE 1) * InterpScaled(SrcGrid(r.gsize, r.gen), r.q), "interpolate"))
+    [] r.f = "spiral_grid" ->
+         LET want == {p \in Positions(r.gsize) : Manhattan2(p, r.o) <= r.d} IN
+         Obs(R(~r.capped, "iteration-does-not-end")
+         \cup R(Len(r.hits) = Cardinality(want) /\ {r.hits[k] : k \in 1..Len(r.hits)} = want, "cells-within-distance")
+         \cup R(Len(r.vals) = Len(r.hits) /\ \A k \in 1..Len(r.hits) : r.hits[k] \in Positions(r.gsize) => r.vals[k] = Lin(r.gen, r.hits[k]),
+                "element-at-position")
+         \cup R(\A k \in 1..(Len(r.hits) - 1) : Manhattan2(r.hits[k], r.o) <= Manhattan2(r.hits[k + 1], r.o), "distance-decreases"))
+    [] r.f = "pos_range" ->
          Walk(r, RangeSet(r.min, r.sup))
          \cup R(r.rmin = r.min /\ r.rsup = r.sup, "min-sup-accessors")
     [] r.f = "whole_range" -> Walk(r, Positions(r.dim))
@@ -61,12 +121,15 @@ GridReasons(r) ==
          \cup R(\A k \in 1..Len(r.ps) : Opt(k, r.somec, r.valc) = AtOptional(g, r.ps[k]), "at_optional-const")
     [] r.f = "in_range" ->
          R(Positions(r.gsize) \subseteq {r.ps[k] : k \in 1..Len(r.ps)}, "HARNESS-PRECONDITION")
-         \cup R(\A k \in 1..Len(r.ps) : r.inr[k] = Bool01(InRange(r.ps[k], r.gsize)), "in_range")
-         \cup R(\A k \in 1..Len(r.ps) : r.ird[k] = Bool01(InRange(r.ps[k], r.gsize)), "in_range_dim")
+         \cup Obs(R(\A k \in 1..Len(r.ps) : r.inr[k] = Bool01(InRange(r.ps[k], r.gsize)), "in_range"))
+         \cup Obs(R(\A k \in 1..Len(r.ps) : r.ird[k] = Bool01(InRange(r.ps[k], r.gsize)), "in_range_dim"))
     [] r.f = "construct" ->
-         GridObs(r, CASE r.kind = "fn" -> SrcGrid(r.size, r.gen)
-                      [] r.kind = "value" -> GridOf(r.size, LAMBDA p : r.gen[1])
-                      [] r.kind = "default" -> EmptyGrid(r.N))
+         Obs(GridObs(r, CASE r.kind = "fn" -> SrcGrid(r.size, r.gen)
+                          [] r.kind = "value" -> GridOf(r.size, LAMBDA p : r.gen[1])
+                          [] r.kind = "default" -> EmptyGrid(r.N)) \ {"HARNESS-PRECONDITION"})
+         \cup (GridObs(r, CASE r.kind = "fn" -> SrcGrid(r.size, r.gen)
+                            [] r.kind = "value" -> GridOf(r.size, LAMBDA p : r.gen[1])
+                            [] r.kind = "default" -> EmptyGrid(r.N)) \cap {"HARNESS-PRECONDITION"})
     [] r.f = "resize" ->
          GridObs(r, Resize(SrcGrid(r.size, r.gen), r.nsize, LAMBDA p : Lin(r.igen, p)))
     [] r.f = "map" ->
